@@ -72,6 +72,9 @@ class LocaleStub:
         self.seen: dict[str, list[str]] = {}     # thread name -> LC_COLLATE at each strcoll/strxfrm
         self.yield_prob = yield_prob
         self.rng = rng
+        self.nseen = 0
+        self.own: dict[str, str] = {}            # thread name -> last locale that thread installed
+        self.foreign: dict[str, list] = {}       # thread name -> strcoll calls that saw another one
 
     def _maybe_yield(self):
         if self.yield_prob and self.rng.random() < self.yield_prob:
@@ -92,12 +95,18 @@ class LocaleStub:
             raise locale.Error('unsupported locale setting')
         self.log.append((name, True))
         self.cur = name
+        self.own[threading.current_thread().name] = name
         self._maybe_yield()
         return name
 
     def _note(self):
         self._maybe_yield()
-        self.seen.setdefault(threading.current_thread().name, []).append(self.cur)
+        me = threading.current_thread().name
+        cur = self.cur
+        self.nseen += 1
+        self.seen.setdefault(me, []).append(cur)
+        if self.own.get(me) != cur:
+            self.foreign.setdefault(me, []).append((cur, self.own.get(me)))
 
     def strcoll(self, a, b):
         self._note()
@@ -113,7 +122,8 @@ def install(stub: LocaleStub):
     locale._setlocale = stub.setlocale
     locale.strcoll = stub.strcoll
     locale.strxfrm = stub.strxfrm
-    collations._locale_collate_lock = _new_lock(collations)
+    if hasattr(collations, '_locale_collate_lock'):
+        collations._locale_collate_lock = _new_lock(collations)
 
 
 _LOCK_TYPE = None
@@ -140,7 +150,9 @@ def lock_held() -> bool:
     """is `_locale_collate_lock` held by anybody?  (`locked()` for Lock; for a reentrant lock,
     a non-blocking acquire from a helper thread)"""
     from elementpath import collations
-    lk = collations._locale_collate_lock
+    lk = getattr(collations, '_locale_collate_lock', None)
+    if lk is None:
+        return False
     if hasattr(lk, 'locked'):
         try:
             return bool(lk.locked())
@@ -201,14 +213,39 @@ class Ev:
         return 1 + sum(e.size() for e in self.inner)
 
 
+# evaluations that do not use CollationManager at all (regex caches, decimal arithmetic, the gated
+# functions, date/time): in the model they are no-locale scopes; observed for the frame (decimal
+# context, os.environ) and, in the thread runs, for the module-level caches shared by threads
+OTHER_EXPRS = [
+    "matches($a, '\\p{Lu}*\\p{IsGreek}?[\\p{L}-[aeiou]]*')",
+    "xs:decimal('1.1') div 3",
+    "round-half-to-even(xs:decimal('2.345'), 2)",
+    "tokenize('a b  c', '\\s+')",
+    "replace($a, '[\\p{L}-[aeiou]]', 'x')",
+    "environment-variable('HOME')",
+    "string(parse-xml('<r>t</r>'))",
+    "format-number(1234.5, '#,##0.00')",
+    "current-dateTime() gt xs:dateTime('2000-01-01T00:00:00')",
+    "xs:float('1.5') * 2",
+    "upper-case($a)",
+    "normalize-unicode('\u00e9', 'NFD')",
+    "xs:decimal(1) div xs:decimal(7)",
+    "matches('\u03b1\u03b2', '^\\p{IsGreek}+$')",
+    "xs:integer('12') idiv 5",
+    "string-length(codepoints-to-string((97, 8364, 128512)))",
+]
+
 FLAT_KINDS = ['compare', 'contains', 'starts-with', 'ends-with', 'substring-before',
               'substring-after', 'index-of', 'distinct-values', 'max', 'min', 'deep-equal',
               'contains-token', 'collation-key']
 # kinds whose operand is evaluated INSIDE the `with` block, with the marker that makes the body raise
 RAISE_MARK = {'index-of': ('$one div $zero', 'FOAR0001'), 'distinct-values': ('$one div $zero', 'FOAR0001'),
               'deep-equal': ('$one div $zero', 'FOAR0001'), 'contains-token': ('1', 'XPTY0004'),
-              'max': ('1', 'FORG0006')}
-NEST_KINDS = ['contains-token', 'index-of', 'distinct-values', 'deep-equal']
+              'max': ('1', 'FORG0006'),
+              'for-index-of': ('$one div $zero', 'FOAR0001'), 'for-distinct-values': ('$one div $zero', 'FOAR0001')}
+# 'for-*': the scope is held open by a suspended generator (fn:index-of / fn:distinct-values yield from
+# inside their `with` block) while the `return` expression is evaluated
+NEST_KINDS = ['contains-token', 'index-of', 'distinct-values', 'deep-equal', 'for-index-of', 'for-distinct-values']
 
 
 class ExprBuilder:
@@ -229,6 +266,8 @@ class ExprBuilder:
 
     def expr(self, ev: Ev) -> str:
         k = ev.kind
+        if k.startswith('other:'):
+            return OTHER_EXPRS[int(k[6:])]
         if ev.dflt:
             return self.expr_with(ev, '')
         return self.expr_with(ev, ', ' + self.cref(ev.coll))
@@ -244,6 +283,10 @@ class ExprBuilder:
             seq = '(' + ', '.join(items) + ')'
         else:
             seq = '$s'
+        if k == 'for-index-of':
+            return f'for $i in index-of($a, $a{c}) return {seq}'
+        if k == 'for-distinct-values':
+            return f'for $i in distinct-values($a{c}) return {seq}'
         if k == 'compare':
             return f'compare($a, $b{c})'
         if k in ('contains', 'starts-with', 'ends-with', 'substring-before', 'substring-after'):
@@ -434,7 +477,8 @@ def run_history_impl(world: World, evs: list[Ev], yield_prob=0.0):
 
 # ------------------------------------------------------------------------------ generators
 LOCALES = ['de_DE.UTF-8', 'fr_FR.UTF-8', 'en_US.UTF-8', 'it_IT.UTF-8', 'sv_SE.UTF-8', 'xx.UTF-8']
-INITS = ['C', 'C', 'C', 'POSIX', 'en_US.UTF-8', 'en_US', 'de_DE@euro', 'mylocale', 'C.utf8', 'de_DE.UTF-8']
+INITS = ['C', 'C', 'C', 'POSIX', 'en_US.UTF-8', 'en_US', 'de_DE@euro', 'mylocale', 'C.utf8', 'de_DE.UTF-8',
+         'en_US.utf-8', 'sr_RS.UTF-8@latin', 'en_US.ISO8859-1']
 LANGS = ['de', 'de_DE', 'fr', 'fr_FR', 'en', 'en_US', 'it', 'sv', 'xx', 'de_DE.UTF-8', 'fr_FR.utf8', '', 'de-DE']
 
 
@@ -492,6 +536,8 @@ def gen_coll(rng, world: World):
 
 
 def gen_ev(rng, world: World, depth=0, allow_nest=True) -> Ev:
+    if depth == 0 and rng.random() < 0.08:
+        return Ev(CODEPOINT, kind=f'other:{rng.randrange(len(OTHER_EXPRS))}')
     coll = gen_coll(rng, world)
     nest = allow_nest and depth < 2 and rng.random() < (0.22 if depth == 0 else 0.3)
     raises = rng.random() < 0.2
@@ -557,6 +603,11 @@ CORPUS_HIST = [
      [Ev(CODEPOINT, [Ev('de_DE.UTF-8'), Ev('zz_ZZ')], kind='distinct-values'), Ev('de_DE.UTF-8', raises=True, kind='max')]),
     (World('C', ['en_US.UTF-8']),
      [Ev(UCA + '?lang=xx', [Ev(HTML_ASCII, raises=True, kind='index-of')], kind='deep-equal'), Ev(None), Ev('')]),
+    # F19b through a suspended generator: for $i in index-of(.., C1) return compare(.., C2)
+    (World('C', ['de_DE.UTF-8', 'fr_FR.UTF-8']),
+     [Ev('de_DE.UTF-8', [Ev(CODEPOINT)], kind='for-index-of'), Ev('de_DE.UTF-8', [Ev('fr_FR.UTF-8')], kind='for-index-of')]),
+    (World('C', ['de_DE.UTF-8']),
+     [Ev('de_DE.UTF-8', [Ev('zz_ZZ', dflt=False)], raises=True, kind='for-distinct-values'), Ev('de_DE.UTF-8')]),
     (World('en_US.UTF-8', ['de_DE.UTF-8', 'C'], 'en_US.UTF-8'),
      [Ev(''), Ev(UCA + '?lang=de_DE.UTF-8;fallback=no', raises=True, kind='contains-token'), Ev(UCA + '?fallback=no;lang=')]),
 ]
@@ -580,9 +631,22 @@ def compare_histories(run: Run, cases, tag_known=True):
     for c in parse_colls:
         lines.append(f'PARSE c={enc(c)}')
     lines.append('PARSE c=NONE')
+    inits = sorted({w.init for w, _ in cases})
     for world, evs in cases:
         lines.append(hist_line(world, evs, envd, decd))
+    for i in inits:
+        lines.append(f'DEFCOLL lc={enc(i)}')
     answers = run.driver('C19', lines)
+    for i, ans in zip(inits, answers[len(answers) - len(inits):]):
+        try:
+            impl = 'dc=' + enc(World(i, []).default_collation())
+        except BaseException as e:
+            impl = canon_exc(e)
+        st.count('default-collation:' + ('locale' if UCA in dec(impl[3:]) else 'codepoint') if impl.startswith('dc=')
+                 else 'default-collation:error')
+        if impl != ans:
+            run.disagree(Disagreement({'LC_COLLATE': i}, impl, ans, what='XPath2Parser-default-collation',
+                                      site='xpath2_parser.py XPath2Parser.__init__'))
     # --- __init__ tie
     for c, ans in zip(parse_colls + [None], answers):
         m = impl_manager(c)
@@ -620,7 +684,7 @@ def compare_histories(run: Run, cases, tag_known=True):
             prefix = dict(case_json(world, evs[:k + 1]), expr=exprs[k])
             st.count('out:' + io['out'])
             st.count('shape:' + ('nested' if ev.inner else 'flat') + ('+raise' if ev.raises else ''))
-            st.count('kind:' + ev.kind)
+            st.count('kind:' + ('other' if ev.kind.startswith('other:') else ev.kind))
             if io['log']:
                 st.count('setlocale-requests', len(io['log'].split(',')))
                 if '-' in io['log']:
@@ -647,11 +711,11 @@ def compare_histories(run: Run, cases, tag_known=True):
                 # a call without collation argument is also evaluated once at parse time (static
                 # evaluation enters and leaves the default collation's scope): the request log may be
                 # the model's, repeated
-                for rep in (2, 3):
-                    if mo['log'] and io['log'] == ','.join([mo['log']] * rep):
-                        impl[k] = model[k]
-                        st.count('default-collation:static-evaluation-scope')
-                        break
+                # (so for these calls only "the model's log is a suffix of the observed one" is checked)
+                if io['log'] != mo['log'] and io['log'].endswith(',' + mo['log']) and \
+                        impl[k].rsplit('#', 1)[0] == model[k].rsplit('#', 1)[0]:
+                    impl[k] = model[k]
+                    st.count('default-collation:static-evaluation-scope')
             if impl[k] != model[k]:
                 run.disagree(Disagreement(prefix, impl[k], model[k], what='model-step',
                                           site='collations.py CollationManager'))
@@ -689,11 +753,15 @@ def gen_thread_case(rng):
                 coll = 'zz_ZZ.UTF-8'
             raises = rng.random() < 0.15     # the sequence operand is built eagerly: a raising body
             jobs.append((coll, 0 if raises else rng.randint(1, 4), raises))   # makes no strcoll call
+            if rng.random() < 0.25:    # an evaluation without collation in between (shared caches)
+                jobs.append((CODEPOINT, 0, False, rng.randrange(len(OTHER_EXPRS))))
         progs.append(jobs)
     return world, progs
 
 
 def job_expr(job):
+    if len(job) > 3:
+        return OTHER_EXPRS[job[3]], {'a': 'Query', 'c': job[0]}
     coll, uses, raises = job
     seq = ', '.join(["'q'"] * uses + (['$one div $zero'] if raises else []))
     return f'index-of(({seq}), $a, $c)', {'a': 'q', 'c': coll, 'one': 1, 'zero': 0}
@@ -701,7 +769,7 @@ def job_expr(job):
 
 def thr_line(world, progs, sched):
     colls = {j[0] for p in progs for j in p}
-    ps = '|'.join(','.join(f'{enc(c)}~{u}~{int(r)}' for c, u, r in p) for p in progs)
+    ps = '|'.join(','.join(f'{enc(j[0])}~{j[1]}~{int(j[2])}' for j in p) for p in progs)
     return (f'THR init={enc(world.init)} avail={";".join(enc(a) for a in world.avail)} '
             f'norm={norm_table(colls, world)} progs={ps} sched={".".join(map(str, sched))}')
 
@@ -722,7 +790,7 @@ def join_all(threads, stub, limit=20.0) -> bool:
             return False
         frames = sys._current_frames()
         blocked = all(_in_enter(frames.get(t.ident)) for t in alive)
-        sig = (len(stub.log), stub.queries, sum(len(v) for v in stub.seen.values()), len(alive))
+        sig = (len(stub.log), stub.queries, stub.nseen, len(alive))
         stable = stable + 1 if (blocked and sig == last) else 0
         last = sig
         if stable >= 3 or time.time() - t0 > limit:
@@ -740,7 +808,6 @@ def run_threads_impl(world, progs, concurrent: bool, rng):
     results = [None] * len(progs)
     idents = [None] * len(progs)
     try:
-        sels = [[(Selector(job_expr(j)[0], parser=XPath31Parser), job_expr(j)[1]) for j in p] for p in progs]
         start = threading.Barrier(len(progs)) if concurrent else None
 
         def work(i):
@@ -748,8 +815,11 @@ def run_threads_impl(world, progs, concurrent: bool, rng):
             if start is not None:
                 start.wait()
             outs = []
-            for sel, variables in sels[i]:
+            for j in progs[i]:
                 try:
+                    # an independent Selector (own parser instance) per evaluation, built in the thread
+                    expr, variables = job_expr(j)
+                    sel = Selector(expr, parser=XPath31Parser)
                     v = sel.select(root(), variables=variables)
                     outs.append('ok:' + repr(v))
                 except BaseException as e:
@@ -774,8 +844,9 @@ def run_threads_impl(world, progs, concurrent: bool, rng):
                     break                      # the rest would only queue up behind the held lock
         hung = [i for i, t in enumerate(threads) if t.is_alive() or results[i] is None]
         seen = [stub.seen.get(idents[i], []) if idents[i] is not None else [] for i in range(len(progs))]
+        foreign = [stub.foreign.get(idents[i], []) if idents[i] is not None else [] for i in range(len(progs))]
         final = (int(lock_held()), stub.cur)
-        return results, seen, final, hung
+        return results, seen, final, hung, foreign
     finally:
         uninstall()
 
@@ -785,7 +856,7 @@ def compare_threads(run: Run, cases):
     rng = run.rng
     lines = []
     for world, progs in cases:
-        total = sum(u + 10 for p in progs for _, u, _ in p)
+        total = sum(j[1] + 10 for p in progs for j in p)
         sched = [rng.randrange(len(progs)) for _ in range(total)]
         lines.append(thr_line(world, progs, sched))
     answers = run.driver('C19', lines)
@@ -808,7 +879,7 @@ def compare_threads(run: Run, cases):
         seq = run_threads_impl(world, progs, False, rng)
         con = run_threads_impl(world, progs, True, rng)
         spec_final = fs['spec']
-        for name, (results, seen, final, hung) in (('sequential', seq), ('concurrent', con)):
+        for name, (results, seen, final, hung, foreign) in (('sequential', seq), ('concurrent', con)):
             impl_final = f'{final[0]}#{enc(final[1])}'
             if hung:
                 hung_cases += 1
@@ -822,7 +893,8 @@ def compare_threads(run: Run, cases):
             for i, p in enumerate(progs):
                 # what each strcoll must have seen: the locale its own scope installed
                 want = []
-                for (coll, uses, raises) in p:
+                for j in p:
+                    coll, uses = j[0], j[1]
                     m = impl_manager(coll)
                     if isinstance(m, str) or m[0] is None:
                         continue
@@ -837,9 +909,14 @@ def compare_threads(run: Run, cases):
                 if impl_outs != m_outs:
                     run.disagree(Disagreement(dict(case, thread=i), impl_outs, m_outs,
                                               what=f'threads-{name}-outcomes'))
+                if foreign[i]:
+                    # property: a body's strcoll ran under a locale its own scope did not install
+                    run.disagree(Disagreement(dict(case, thread=i), 'saw/own=' + repr(foreign[i][:4]), None,
+                                              spec='saw/own=[]', what=f'threads-{name}-foreign-locale-seen',
+                                              site='collations.py _locale_collate_lock'))
                 if got != want:
                     run.disagree(Disagreement(dict(case, thread=i), 'seen=' + ','.join(got), 'seen=' + ','.join(want),
-                                              spec='seen=' + ','.join(want), what=f'threads-{name}-locale-seen',
+                                              what=f'threads-{name}-locale-seen',
                                               site='collations.py _locale_collate_lock'))
                 elif str(len(got)) != m_nseen:
                     run.disagree(Disagreement(dict(case, thread=i), f'nseen={len(got)}', f'nseen={m_nseen}',
@@ -1133,7 +1210,7 @@ def translate(run: Run) -> dict:
     from elementpath.xpath31 import XPath31Parser
     allow = inspect.signature(XPathContext.__init__).parameters['allow_environment'].default
     defuse = bool(XPath30Parser().defuse_xml) and bool(XPath31Parser().defuse_xml)
-    lk = collations._locale_collate_lock
+    lk = getattr(collations, '_locale_collate_lock', None)
     reentrant = type(lk) is type(threading.RLock())
 
     def b(x):
@@ -1191,7 +1268,11 @@ def body(run: Run) -> int:
     if getattr(run, 'replay', None):
         run.prove(['EPV.Props.C19', 'EPV.Props.C19Defaults'], ['EPV.Spec.GlobalsSpec'])
         return replay(run, run.replay)
-    info = translate(run)
+    try:
+        info = translate(run)
+    except Exception as e:      # the live objects no longer have the shape the translator reads
+        info = {'error': f'{type(e).__name__}: {e}'}
+        run.broken.append('translate:C19Defaults ' + info['error'][:200])
     run.stats.extra['live_defaults'] = info
     run.trusted_base += [
         'translator harness/c19.py::translate (three defaults of the live library printed as Lean literals)',
